@@ -556,3 +556,19 @@ contract(
         "defaults-restored": "self._s.todo_priority == DEFAULT_PRIORITY and self._s.todo_status == NoteType.OPEN_TODO",
     },
 )
+
+
+# ---- enterInline_prop: only the property stores may change (string surgery on the token text is outside the VC generator) ----
+contract(
+    M + "enterInline_prop", props=["C02", "C08"], assumed=True,
+    args={"self": SELF(), "ctx": CTX(T.str())},
+    modifies={f"self._s.{lv}_props": PROPS() for lv in LEVELS},
+    ensures={"only-the-scope-selected-by-the-flags-may-change":
+             "all(old(prop_target(self._s)) == lv or scope_props(self._s, lv) == scope_props(old(self._s), lv) for lv in LEVELS)"},
+    note="ASSUMED: `[key:: words]` is parsed with split/slicing; the effect is _add_prop(key, value) for some key/value. Exercised by the bounded tier.",
+)
+
+
+def scope_props(s, lv):
+    return (s.file_props if lv == "file" else s.h1_props if lv == "h1" else s.h2_props if lv == "h2" else s.h3_props if lv == "h3"
+            else s.h4_props if lv == "h4" else s.note_props)
